@@ -101,6 +101,9 @@ func NewUpstreamReverseProxy(config *UpstreamConfig, signer *RequestSigner) (htt
 			for key := range securityHeaders {
 				resp.Header.Del(key)
 			}
+			// Strict-Transport-Security is owned by the requireHTTPS middleware; an upstream
+			// value would otherwise replace (and could weaken) the one set there.
+			resp.Header.Del("Strict-Transport-Security")
 
 			return nil
 		},
